@@ -146,6 +146,9 @@ APPEND = {
  'C11': ('; the real xpobssim() application is run with only the orbit propagator stubbed',
          ' Application histories: a run from scratch, the same run resumed with the DU 1 file in place (--overwrite False), the same run again in the process, on a configuration with an '
          'instrumental background.', ''),
+ 'C12': ('; the loaders and the response set (call forwarding resolved against the callee signatures) are regenerated from the source',
+         ' T-tie of the glue: gen_set_members, gen_loaders_agree_with_set, gen_set_flavour_faithful (Gen/Loaders.lean); every member of a loaded set is checked to come from the file of '
+         'the requested name (intent with its weighting flavour, version).', ''),
  'C17': ('; _dt, nu, nudot, met_to_phase and fold are regenerated from the source with their mutual calls and proved equal to the model',
          ' T-tie: gen_fold_eq_model, gen_fold_is_fract, gen_fold_range, gen_rvs_fold_roundtrip, gen_met_to_phase_eq_model; coarse (ten-bin) pulse profiles.', ''),
  'C18': ('; _bin_gti, the xGTIList methods and the observation timeline (shrink, isgti, isocti, _bisect_odd, _calculate_epochs, filter_epochs, gti_list, octi_list) are regenerated from the source '
